@@ -31,7 +31,7 @@ PROPS = {
                   "distinct on (layout, mapper state before the step, event)", {}, {}),
     "C02": mapper("one evaluation = one monitored step; non-trivial = a step after which at least one mapping is in effect and at least one key is passed through; "
                   "distinct on (layout, mapper state before the step, event)", {}, {}),
-    "C03": mapper("one evaluation = one monitored step in a layout without absorbing; non-trivial = a fresh key press with >= 2 qualifying mappings, or with a mapping already in effect; "
+    "C03": mapper("one evaluation = one monitored step in a layout without absorbing ('in effect' is judged against the monitor's own record - fired and no trigger key released since - as well as against the mapper's list); non-trivial = a fresh key press with >= 2 qualifying mappings, or with a mapping already in effect; "
                   "distinct on (layout, mapper state before the step, event)", {}, {}),
     "C04": mapper("one evaluation = one monitored step in a layout without absorbing; non-trivial = the instant a key-producing mapping presses its final key while a modifier-carrying mapping is in effect; "
                   "distinct on (layout, mapper state before the step, event)", {}, {}),
@@ -51,7 +51,7 @@ PROPS = {
 
 LOOP_NOTE = ("Trusted: the scripted-driver adapter hook, the virtual clock (clock_gettime defined by the harness binary; a real-clock bracket run guards the assumption that the loop "
              "reads time only through it), the 60-line loop-contract reference, which uses the real Mapper for key semantics. Schedules are sampled.")
-LOOP_ASSUME = ["the loop reads time only through clock_gettime", "edge-triggered readiness as modelled by the scripted world (arrivals at poll, trickle during a drain, phantom readiness, one signal interruption on the first wait after an arrival)",
+LOOP_ASSUME = ["the loop reads time only through clock_gettime", "edge-triggered readiness as modelled by the scripted world (arrivals at poll, trickle during a drain, phantom readiness, one to three signal interruptions on the first waits after an arrival; the loop's back-off sleep runs on the virtual clock)", "real-driver phase: pipes stand in for the evdev, switch and uinput nodes (no ioctl is exercised); layouts are used with Special repeats turned into Disabled; keyboard and switch events are only interleaved at quiescent points",
                "schedules and histories are sampled: mostly 4-60 events with at most 4 / 5 keys held and chunks of 1-8 events; at low frequency chunks of 9-24, 100-300 and 1025-1400 events, histories of 1100-2600 events, histories with up to 24 keys held, injected lateness of 3 / 40 / 700 ms and one-off stalls of 0.15-30 s"]
 
 def loop(level, rule, floors_q, floors_t, text, technique, evaluations=("schedules", "metamorphic_runs")):
@@ -60,28 +60,28 @@ def loop(level, rule, floors_q, floors_t, text, technique, evaluations=("schedul
 
 PROPS["C10"] = loop("exploration",
     "one evaluation = one execution of the real per-device loop against a scripted schedule (random chunking of a key history, tablet events, spurious time-outs, one interruption, phantom readiness, trickling arrivals, end-of-device at any position) "
-    "or one metamorphic run (same history, another split); non-trivial = a schedule with a wake-up delivering >= 2 events or both devices; distinct on (layout, schedule)", {}, {},
-    "Offline checker over the boundary log of every driver call against the loop contract (expected write after every consumed event, nothing unread at poll, nothing after end-of-device) plus a metamorphic comparison of the written payloads over splits of the same history.",
-    "runtime monitoring: boundary-log checker against an executable loop contract + metamorphic re-chunking, virtual clock")
+    "or one metamorphic run (same history, another split); non-trivial = a schedule with a wake-up delivering >= 2 events or both devices; distinct on (layout, schedule); plus, second phase, one execution of the same loop on the REAL driver (mio epoll, evdev reader, uinput writer) over pipes fed with input_event records in write() calls of 1-170 records", {}, {},
+    "Offline checker over the boundary log of every driver call against the loop contract (expected write after every consumed event, nothing unread at poll, nothing after end-of-device) plus a metamorphic comparison of the written payloads over splits of the same history. Real-driver phase: at every quiescent point (decided from the monitored system calls, not from time) the decoded bytes of the output pipe must equal the reference mapper's non-empty step outputs, write for write; ENODEV must end the loop with Ok and no further write.",
+    "runtime monitoring: boundary-log checker against an executable loop contract + metamorphic re-chunking, virtual clock; the real driver over pipes with interposed read/write/epoll_wait and an output-stream oracle at quiescent points", evaluations=("schedules", "metamorphic_runs", "realdrv_cases"))
 PROPS["C11"] = loop("exploration",
     "one evaluation = one execution of the real loop against a scripted schedule with delays long enough for timer ticks (virtual clock, optional injected lateness of 3/40 ms); non-trivial = a schedule in which at least one timer tick occurred; distinct on (layout, schedule, lateness)", {}, {},
     "Offline checker: every poll time-out must equal next_wakeup - now (1 ms when overdue) with next_wakeup carried forward by addition only, every time-out with a pending repeat must be followed by exactly the chord of not-yet-held keys, any acted key event or tablet event cancels. Exact on the virtual clock; a small real-clock run checks a load-independent lower bracket.",
     "runtime monitoring: boundary-log checker with a virtual clock (exact time-outs) and a real-clock bracket run", evaluations=("schedules", "real_clock_runs"))
 PROPS["C12"] = loop("exploration",
     "one evaluation = one execution of the real loop against a schedule with tablet on/off events (repeated, alone or in the same wake-up as keyboard events in both flag orders, while chords are held or a repeat is pending); non-trivial = a schedule with at least one switch-on; distinct on (layout, schedule, lateness)", {}, {},
-    "Offline checker: switch-on must be followed by exactly the release of everything held and nothing else may be written until switch-off; after switch-off the writes must equal those of a fresh Mapper fed the post-off events.",
-    "runtime monitoring: boundary-log checker against an executable loop contract, virtual clock", evaluations=("schedules",))
+    "Offline checker: switch-on must be followed by exactly the release of everything held and nothing else may be written until switch-off; after switch-off the writes must equal those of a fresh Mapper fed the post-off events. The same contract is checked on the real driver over pipes (switch records, foreign EV_SW records) at quiescent points.",
+    "runtime monitoring: boundary-log checker against an executable loop contract, virtual clock; the real driver over pipes with an output-stream oracle at quiescent points", evaluations=("schedules", "realdrv_cases"))
 PROPS["C20"] = loop("fault_enumeration",
     "one evaluation = one execution of the real loop with the k-th driver call (register, poll, read keyboard, read tablet, send) failing, for every k of the fault-free run of a sampled (layout, history, schedule) (every k-th when the run has > 120 calls in quick); non-trivial/distinct = (layout, schedule, k) whose fault point was reached", {}, {},
-    "Fault enumeration: for each sampled schedule the fault-free run counts its driver calls n, then the run is repeated n times with call k returning an error; the loop must return that error, write nothing afterwards and stop within 64 calls. Three quarters of the injected errors carry the text the real driver produces for an OS error at that kind of call (the loop's own format strings filled with nix's rendering of an errno value).",
-    "runtime monitoring with fault injection at every driver call in turn (error texts: a marker, or what the real driver would print for one of 28 errno values); oracle on the boundary log", evaluations=("fault_runs",))
+    "Fault enumeration: for each sampled schedule the fault-free run counts its driver calls n, then the run is repeated n times with call k returning an error; the loop must return that error, write nothing afterwards and stop within 64 calls. Three quarters of the injected errors carry the text the real driver produces for an OS error at that kind of call (the loop's own format strings filled with nix's rendering of an errno value). Second phase, on the real driver over pipes: every read, write and epoll_wait the driver makes is failed in turn with a real errno at the libc boundary; the loop must return an error naming it, make no further driver call and no further write (ENODEV on a read must end it with Ok).",
+    "runtime monitoring with fault injection at every driver call in turn (error texts: a marker, or what the real driver would print for one of 28 errno values) and, on the real driver, at every system call in turn (errno injected through interposed read/write/epoll_wait); oracles on the boundary log and on the system-call counters", evaluations=("fault_runs", "realdrv_fault_runs"))
 
 PROPS["C17"] = {
     "engine": "systemd", "level": "exploration", "evaluations": ["patterns_lists"],
-    "rule": "one evaluation = one list of exclude patterns pushed through the real build_service_text and decoded back; exhaustive over every Unicode scalar value except NUL as a one-character pattern and over every pair (thorough: triple) of 44 syntax-relevant characters, plus seeded random strings and lists of 1-4 patterns (now and then 30-150), plus every word of a dictionary mined from the string literals of the repository's own sources (template fields, format placeholders, option names, paths) alone, embedded, between wildcards and in pairs, plus every literal spelling of an escape sequence of the target syntax and every 4-gram (thorough: 5-gram) over the 14 characters escapes are made of, plus every scalar value next to a numerically escaped character on either side; "
+    "rule": "one evaluation = one list of exclude patterns pushed through the real build_service_text and decoded back; exhaustive over every Unicode scalar value except NUL as a one-character pattern and over every pair (thorough: triple) of 44 syntax-relevant characters, plus seeded random strings and lists of 1-4 patterns (now and then 30-150), plus every word of a dictionary mined from the string literals of the repository's own sources (template fields, format placeholders, option names, paths) alone, embedded, between wildcards and in pairs, plus every literal spelling of an escape sequence of the target syntax and every 4-gram (thorough: 5-gram) over the 14 characters escapes are made of, plus every scalar value next to a numerically escaped character on either side, plus every scalar value at the end and at the start of a pattern that is not the last of its list; "
             "distinct = distinct pattern lists (every case differs from the identity encoding in at least the surrounding line, so all are non-trivial)",
-    "floors": {"quick": {"single_scalar_values": 1112063, "scalar_next_to_an_escape": 3336189, "syntax_pairs": 1900, "long_pattern_lists": 1000, "dictionary_tokens": 500, "literal_escape_spellings": 1200, "escape_alphabet_ngrams": 38416},
-               "thorough": {"single_scalar_values": 1112063, "scalar_next_to_an_escape": 3336189, "syntax_triples": 85000, "long_pattern_lists": 50000, "dictionary_tokens": 500, "literal_escape_spellings": 1200, "escape_alphabet_ngrams": 537824}},
+    "floors": {"quick": {"single_scalar_values": 1112063, "scalar_next_to_an_escape": 3336189, "scalar_in_a_list_position": 2224126, "syntax_pairs": 1900, "long_pattern_lists": 1000, "dictionary_tokens": 500, "literal_escape_spellings": 1200, "escape_alphabet_ngrams": 38416},
+               "thorough": {"single_scalar_values": 1112063, "scalar_next_to_an_escape": 3336189, "scalar_in_a_list_position": 2224126, "syntax_triples": 85000, "long_pattern_lists": 50000, "dictionary_tokens": 500, "literal_escape_spellings": 1200, "escape_alphabet_ngrams": 537824}},
     "assumptions": ["the decoder implements systemd's documented rules (word splitting on space/tab/newline/CR, quotes anywhere in a word, C unescaping with unknown escapes kept, %% and % specifiers, $$ / ${VAR} / whole-word $VAR against an empty environment)",
                     "the ';' command-separator rule is not modelled (not among the rules the property enumerates)"],
     "level_text": "Independent decoder of systemd's ExecStart rules applied to the text the real code generates; exact argv comparison, byte for byte. Exhaustive on single scalar values and on pairs of syntax-relevant characters, sampled beyond.",
@@ -135,9 +135,9 @@ PROPS["C14"] = {
 PROPS["C15"] = {
     "engine": "roundtrip", "level": "exploration", "evaluations": ["layouts_round_tripped"],
     "rule": "one evaluation = one basic layout written by the real write_layout_to_global_config to /etc/totalmapper.json (a tmpfs mounted over /etc in a private mount namespace) and read back by the real load_layout_from_file; mappings must be equal, in order; "
-            "exhaustive over the key codes (each as trigger, output, repeat key and absorbed modifier), plus the converter's output for the corpus and for generated shorthand programs (one in three damaged by structure-aware mutations first: whatever the loader still accepts has to round-trip too), plus random basic layouts over all key codes with empty outputs, 0-3 key chords and extreme i32 repeat parameters; distinct = distinct layouts",
-    "floors": {"quick": {"per_key_code": 484, "converted_programs": 40000, "random_basic_layouts": 40000, "mappings_with_absorbing": 10000, "special_with_empty_chord": 1000, "big_layouts": 16, "ran_in_private_namespace": 16, "mutated_programs_converting": 20000},
-               "thorough": {"mutated_programs_converting": 200000, "per_key_code": 484, "converted_programs": 600000, "random_basic_layouts": 600000, "ran_in_private_namespace": 16}},
+            "exhaustive over the key codes (each as trigger, output, repeat key and absorbed modifier), plus the converter's output for the corpus and for generated shorthand programs (one in three damaged by structure-aware mutations first: whatever the loader still accepts has to round-trip too), plus random basic layouts over all key codes with empty outputs, 0-3 key chords and extreme i32 repeat parameters, plus every pair of different 2-3 key chords whose key NAMES run together to the same text ([HOME,PAGEUP] / [HOMEPAGE,UP]; about 2900 pairs) in every role and both orders; distinct = distinct layouts",
+    "floors": {"quick": {"name_twin_layouts": 20000, "per_key_code": 484, "converted_programs": 40000, "random_basic_layouts": 40000, "mappings_with_absorbing": 10000, "special_with_empty_chord": 1000, "big_layouts": 16, "ran_in_private_namespace": 16, "mutated_programs_converting": 20000},
+               "thorough": {"name_twin_layouts": 20000, "mutated_programs_converting": 200000, "per_key_code": 484, "converted_programs": 600000, "random_basic_layouts": 600000, "ran_in_private_namespace": 16}},
     "assumptions": ["a tmpfs over /etc in a private mount namespace stands in for the real /etc (if the namespace cannot be created the same serialiser is used through a temp file and the evidence says so; the floor then fails)"],
     "level_text": "End-to-end differential on the real save and load code paths, exhaustive over the 484 key codes, sampled over layouts.",
     "level_note": "Trusted: the write_layout_to_global_config wrapper hook, PartialEq on Mapping.",
@@ -191,10 +191,10 @@ ANTECEDENTS = {
     "C08": ["wide_layouts", "layouts_genD", "exhaustive_layouts_completed", "exhaustive_transitions", "c08_presses_of_other_key_while_armed", "c08_trigger_pressed_again_first", "c08_counts_again_checks", "c08_dup_press_of_absorbed_modifier", "distinct_nontrivial"],
     "C09": ["wide_layouts", "layouts_genD", "exhaustive_layouts_completed", "exhaustive_transitions", "c09_special_firings", "c09_ignored_events_while_repeat_pending", "c09_acted_events_while_repeat_pending", "distinct_nontrivial"],
     "C19": ["wide_layouts", "layouts_genD", "exhaustive_layouts_completed", "exhaustive_transitions", "c19_steps_with_shared_output_in_effect", "release_all_calls", "distinct_nontrivial"],
-    "C10": ["flood_histories", "wide_histories", "schedules_with_a_stall", "wakeups_with_2plus_events", "wakeups_both_devices", "spurious_timeouts", "interruptions", "end_keyboard", "end_tablet", "metamorphic_runs", "distinct_nontrivial"],
-    "C11": ["wide_histories", "schedules_with_a_stall", "ticks", "firings_with_3plus_ticks", "ticks_with_chord_key_held", "ticks_after_ignored_event", "cancellations_by_other_key", "catchup_polls", "real_clock_timed_polls", "distinct_nontrivial"],
-    "C12": ["wide_histories", "schedules_with_a_stall", "tablet_on", "tablet_on_with_keys_held", "tablet_on_with_repeat_pending", "tablet_repeated", "kb_events_in_tablet_mode", "post_off_steps", "tablet_and_keyboard_same_wakeup", "distinct_nontrivial"],
-    "C20": ["wide_histories", "fault_runs", "faults_at_send", "faults_at_poll", "faults_at_next_keyboard", "faults_at_next_tablet", "faults_at_register_poll", "distinct_nontrivial"],
+    "C10": ["realdrv_cases", "realdrv_quiescent_points_compared", "realdrv_wakeups_with_2plus_key_records", "realdrv_writes_compared", "realdrv_foreign_records", "realdrv_interruptions", "realdrv_empty_wakeups", "realdrv_end_keyboard", "schedules_with_consecutive_interruptions", "backoff_sleeps_on_the_virtual_clock", "flood_histories", "wide_histories", "schedules_with_a_stall", "wakeups_with_2plus_events", "wakeups_both_devices", "spurious_timeouts", "interruptions", "end_keyboard", "end_tablet", "metamorphic_runs", "distinct_nontrivial"],
+    "C11": ["schedules_with_consecutive_interruptions", "wide_histories", "schedules_with_a_stall", "ticks", "firings_with_3plus_ticks", "ticks_with_chord_key_held", "ticks_after_ignored_event", "cancellations_by_other_key", "catchup_polls", "real_clock_timed_polls", "distinct_nontrivial"],
+    "C12": ["realdrv_cases", "realdrv_switch_on", "realdrv_quiescent_points_compared", "realdrv_writes_compared", "schedules_with_consecutive_interruptions", "wide_histories", "schedules_with_a_stall", "tablet_on", "tablet_on_with_keys_held", "tablet_on_with_repeat_pending", "tablet_repeated", "kb_events_in_tablet_mode", "post_off_steps", "tablet_and_keyboard_same_wakeup", "distinct_nontrivial"],
+    "C20": ["realdrv_cases", "realdrv_fault_runs", "realdrv_faults_at_read_keyboard", "realdrv_faults_at_read_tablet", "realdrv_faults_at_write_output", "realdrv_faults_at_epoll_wait", "realdrv_enodev_reads", "schedules_with_consecutive_interruptions", "backoff_sleeps_on_the_virtual_clock", "wide_histories", "fault_runs", "faults_at_send", "faults_at_poll", "faults_at_next_keyboard", "faults_at_next_tablet", "faults_at_register_poll", "distinct_nontrivial"],
 }
 
 import json as _json, os as _os
